@@ -107,6 +107,14 @@ func winConstOK(dir, src string) bool {
 	if i := strings.IndexByte(dir, ':'); i >= 0 && !(i == 1 && driveLetter(dir) && strings.Count(dir, ":") == 1) {
 		return false
 	}
+	// a UNC constant names at least \\host\share\dir: with less, the filename would become part of the volume name
+	if j := winpath.Join(dir, src); len(j) >= 2 && (j[0] == '\\' || j[0] == '/') && (j[1] == '\\' || j[1] == '/') {
+		vol := winpath.VolumeName(j)
+		parts := strings.FieldsFunc(vol, func(r rune) bool { return r == '\\' || r == '/' })
+		if len(vol) >= len(j) || len(parts) != 2 {
+			return false
+		}
+	}
 	return true
 }
 
@@ -188,7 +196,13 @@ func FuzzWindows(f *testing.F) {
 	f.Add("", "", "C:evil.tmpl")
 	f.Add("", "", "//attacker/share/evil.tmpl")
 	f.Fuzz(func(t *testing.T, d, s, fn string) {
-		c := Case{evid.BStr(d), evid.BStr(s), evid.BStr(fn)}
+		// the constant part comes from the representative list (the fuzzer's strings only select from it): arbitrary
+		// "constants" such as `\\\\` or `x:` are not paths a program spells out, and with them the filename completes a
+		// volume name or continues the last element
+		c := Case{evid.BStr(winDirs[len(d)%len(winDirs)]), evid.BStr(winDirs[len(s)%len(winDirs)]), evid.BStr(fn)}
+		if !winConstOK(string(c.Dir), string(c.Src)) || c.Dir != "" && winpath.VolumeName(string(c.Src)) != "" {
+			c.Src = ""
+		}
 		if o := checkWin(c); o.Violation != "" {
 			evid.Record("fuzzwindows", c, o)
 			t.Fatalf("%s replay=%s", o.Violation, evid.SaveFailure("fuzzwindows"))
